@@ -38,7 +38,7 @@ OPS = [
 
 def mutants_for(lines, a, b):
     """yield (line_no, description, new_line) for source lines a..b (1-based, inclusive)"""
-    for ln in range(a, b + 1):
+    for ln in range(a, min(b, len(lines)) + 1):
         line = lines[ln - 1]
         code = line.split("//")[0]
         if not code.strip() or code.strip().startswith(("#", "///", "fn ", "pub fn ", "}", "{")):
